@@ -17,6 +17,7 @@ func init() {
 }
 
 func runC17(r *engine.Run) {
+	r.Rule("DOM-takeover", "in MergeDB the iteration over the donor store (through which the donor's nodes enter this trie's pending changes) dominates every return: no shortcut - being at the donor's root already, say - skips the take-over, after which a save would write nothing and report success")
 	r.Rule("AGREE-unwrapped", "the error of a recursive iterate call is returned unchanged, never wrapped in a constructed error: the callers recognise absent nodes by comparing with the sentinel errors")
 	r.Rule("WHO-limit", "the value size limit MPTMaxAllowableNodeSize is used only in Insert (or in a guard helper all of whose callers are Insert): whole nodes - e.g. those the sync repair takes over - are never held to the limit of a value")
 	r.Rule("ERR-getnode", "at every call site of the trie's getNode, every return that is reached with the lookup error non-nil returns a non-nil error that is not the benign sentinel ErrValueNotPresent (the error itself, a node-not-found sentinel or a constructed error): lookups under an absent node fail rather than answer 'not present'")
@@ -55,6 +56,7 @@ func runC17(r *engine.Run) {
 	domSurvey(r, "DOM-survey")
 	domPrevLevel(r, "DOM-prevlevel")
 	domFullWalk(r, "DOM-fullwalk")
+	domTakeover(r, "DOM-takeover")
 }
 
 // resultValue resolves the i-th result of ret through a named-result cell
